@@ -149,13 +149,17 @@ class SessionScript:
     """Behaviour of the stub sessions produced by one factory."""
 
     def __init__(self, raise_in_open=None, raise_on_message=None, raise_exc="runtime", raise_in_ctor=False,
-                 send_on_open=None, on_message=None):
+                 send_on_open=None, on_message=None, try_on_open=None, try_on_message=None):
         self.raise_in_open = raise_in_open
         self.raise_on_message = raise_on_message      # index of the onMessage call that raises
         self.raise_exc = raise_exc                    # 'runtime' | 'protocol'
         self.raise_in_ctor = raise_in_ctor
         self.send_on_open = send_on_open              # list of message objects
         self.on_message = on_message
+        # sends issued from INSIDE a session callback, each guarded like careful session code would (try/except around
+        # transport.send()); outcome per message in StubSession.site_results = [(site, index, exception | None)]
+        self.try_on_open = try_on_open                # list of message objects, sent from inside onOpen()
+        self.try_on_message = try_on_message          # (k, [message objects]): sent from inside the k-th onMessage()
 
 
 class BoomError(RuntimeError):
@@ -186,6 +190,7 @@ class StubSession:
         self.events = []
         self.transport = None
         self.send_errors = []
+        self.site_results = []
         book.sessions.append(self)
         if script.raise_in_ctor:
             raise _make_exc(script.raise_exc, "constructor")
@@ -205,11 +210,25 @@ class StubSession:
             raise _make_exc(self.script.raise_exc, "onOpen")
         for m in self.script.send_on_open or ():
             transport.send(m)
+        if self.script.try_on_open:
+            self._try_sends("open", self.script.try_on_open)
+
+    def _try_sends(self, site, msgs):
+        for i, m in enumerate(msgs):
+            try:
+                self.transport.send(m)
+            except Exception as e:      # noqa - recorded, judged by the oracle
+                self.site_results.append((site, i, e))
+            else:
+                self.site_results.append((site, i, None))
 
     def onMessage(self, msg):
         idx = len(self.msgs)
         self.msgs.append(msg)
         self.events.append(("msg", idx, bool(self.closes)))
+        tom = self.script.try_on_message
+        if tom and idx == tom[0]:
+            self._try_sends("message", tom[1])
         if self.script.raise_on_message is not None and idx == self.script.raise_on_message:
             raise _make_exc(self.script.raise_exc, "onMessage")
         if self.script.on_message:
